@@ -103,4 +103,195 @@ theorem take_two_writes (L a : List Nat) (c : Nat) (k : Nat) (hk : k ≤ 1) :
     simp
 
 
+/-- between the entry of mpf_add and the copy to rp: only the TMP area (T limbs) has been written -/
+structure TInv (s0 s : St) (T : Nat) : Prop where
+  ok : s.ok = true
+  r : s.r = s0.r
+  u : s.u = s0.u
+  v : s.v = s0.v
+  ta : s.t.alloc = T
+  tw : BlkWF s.t
+
+theorem TInv.obj {s0 s : St} {T : Nat} (I : TInv s0 s T) (x : Src) : s.obj x = s0.obj x := by
+  cases x
+  · exact I.r
+  · exact I.u
+  · exact I.v
+
+theorem TInv.wrT {s0 s : St} {T : Nat} (I : TInv s0 s T) (off : Nat) (l : List Nat) (h : off + l.length ≤ T) :
+    TInv s0 (s.wrT off l) T := by
+  have hW := Blk.write_ok s.t off l I.tw (by rw [I.ta]; exact h)
+  exact ⟨by simp only [St.wrT, I.ok, hW.1, Bool.and_self], I.r, I.u, I.v, by simp only [St.wrT, hW.2.1, I.ta], by
+    simp only [St.wrT]; exact hW.2.2.1⟩
+
+theorem TInv.rd {s0 s : St} {T : Nat} (I : TInv s0 s T) (x : Src) (off n : Nat) (hb : BlkWF (s0.obj x).blk)
+    (h : off + n ≤ (s0.obj x).blk.alloc) : (s.rd x off n).2 = s ∧ (s.rd x off n).1.length = n := by
+  have := rd_spec s x off n I.ok (by rw [I.obj]; exact h)
+  refine ⟨this.1, ?_⟩
+  rw [this.2, I.obj, List.length_take, List.length_drop, hb]; omega
+
+theorem TInv.rdT {s0 s : St} {T : Nat} (I : TInv s0 s T) (off n : Nat) (h : off + n ≤ T) :
+    (s.rdT off n).2 = s ∧ (s.rdT off n).1.length = n := by
+  have hR := Blk.read_ok s.t off n I.tw (by rw [I.ta]; exact h)
+  have hk := I.ok
+  cases s
+  simp only at hk
+  subst hk
+  simp only [St.rdT, hR.1, hR.2, Bool.and_self, and_self]
+
+theorem addv_len (x y : List Nat) : (Mpf.addv x y).1.length = x.length := by
+  simp only [Mpf.addv, Mpf.toLimbs_length]
+
+
+/-- the three alignments stay inside the operands' limbs and inside the TMP area of `T` limbs, and give rsize ≤ T -/
+theorem addAlign_safe {s0 s : St} {T : Nat} (I : TInv s0 s T) (us vs : Src) (uoff usize voff vsize ed : Nat)
+    (hub : BlkWF (s0.obj us).blk) (hvb : BlkWF (s0.obj vs).blk)
+    (hu : uoff + usize ≤ (s0.obj us).blk.alloc) (hv : voff + vsize ≤ (s0.obj vs).blk.alloc)
+    (h1 : vsize + ed ≤ T) (h2 : usize ≤ T) :
+    TInv s0 (addAlign s us uoff usize vs voff vsize ed).1 T ∧ (addAlign s us uoff usize vs voff vsize ed).2.1 ≤ T := by
+  unfold addAlign
+  by_cases c1 : usize > ed
+  · rw [if_pos c1]
+    by_cases c2 : vsize + ed ≤ usize
+    · rw [if_pos c2]
+      have A := I.rd us uoff (usize - ed - vsize) hub (by omega)
+      simp only [A.1]
+      have I1 := I.wrT 0 (s.rd us uoff (usize - ed - vsize)).1 (by rw [A.2]; omega)
+      have X := I1.rd us (uoff + (usize - ed - vsize)) (usize - (usize - ed - vsize)) hub (by omega)
+      simp only [X.1]
+      have Y := I1.rd vs voff vsize hvb hv
+      simp only [Y.1]
+      exact ⟨I1.wrT _ _ (by rw [addv_len, X.2]; omega), h2⟩
+    · rw [if_neg c2]
+      have A := I.rd vs voff (vsize + ed - usize) hvb (by omega)
+      simp only [A.1]
+      have I1 := I.wrT 0 (s.rd vs voff (vsize + ed - usize)).1 (by rw [A.2]; omega)
+      have X := I1.rd us uoff usize hub hu
+      simp only [X.1]
+      have Y := I1.rd vs (voff + (vsize + ed - usize)) (usize - ed) hvb (by omega)
+      simp only [Y.1]
+      exact ⟨I1.wrT _ _ (by rw [addv_len, X.2]; omega), h1⟩
+  · rw [if_neg c1]
+    have A := I.rd vs voff vsize hvb hv
+    simp only [A.1]
+    have I1 := I.wrT 0 (s.rd vs voff vsize).1 (by rw [A.2]; omega)
+    have I2 := I1.wrT vsize (List.replicate (ed - usize) 0) (by rw [List.length_replicate]; omega)
+    have X := I2.rd us uoff usize hub hu
+    simp only [X.1]
+    exact ⟨I2.wrT _ _ (by rw [X.2]; omega), by omega⟩
+
+
+/-- what a call may have done to the state: no access left a block, only the destination's header and limbs changed,
+    its precision and its block length did not -/
+structure Fr (s0 s : St) : Prop where
+  ok : s.ok = true
+  u : s.u = s0.u
+  v : s.v = s0.v
+  prec : s.r.prec = s0.r.prec
+  alloc : s.r.blk.alloc = s0.r.blk.alloc
+  wf : BlkWF s.r.blk
+
+theorem Fr.setSE {s0 s : St} (F : Fr s0 s) (a b : Int) : Fr s0 (s.setSE a b) := ⟨F.ok, F.u, F.v, F.prec, F.alloc, F.wf⟩
+
+theorem addStore_safe {s0 s : St} {T : Nat} (I : TInv s0 s T) (rsize cy : Nat) (hr : rsize ≤ T)
+    (hrb : BlkWF s0.r.blk) (hra : T + 1 ≤ s0.r.blk.alloc) :
+    Fr s0 (addStore (s, rsize, cy)).1 ∧ (addStore (s, rsize, cy)).2 = (rsize, cy) := by
+  unfold addStore
+  have R := I.rdT 0 rsize (by omega)
+  simp only [R.1]
+  have hb : BlkWF s.r.blk := by rw [I.r]; exact hrb
+  have ha : s.r.blk.alloc = s0.r.blk.alloc := by rw [I.r]
+  obtain ⟨a1, a2, a3, _, a4, _, _, a7, a8, _⟩ := wrR_spec s 0 (s.rdT 0 rsize).1 I.ok hb (by rw [R.2, ha]; omega)
+  obtain ⟨b1, b2, b3, _, b4, _, _, b7, b8, _⟩ := wrR_spec (s.wrR 0 (s.rdT 0 rsize).1) rsize [cy] a1 a8
+    (by rw [a7, ha]; simp only [List.length_singleton]; omega)
+  refine ⟨⟨b1, (b2.trans a2).trans I.u, (b3.trans a3).trans I.v, (b4.trans a4).trans (by rw [I.r]),
+    (b7.trans a7).trans ha, b8⟩, by first | rfl | trivial⟩
+
+theorem addSameSign_safe (s : St) (negate : Bool) (us vs : Src) (hs : s.ok = true) (hr : DestWF s.r)
+    (hu : OpndWF (s.obj us)) (hv : OpndWF (s.obj vs)) (he : (s.obj vs).exp ≤ (s.obj us).exp) :
+    Fr s (addSameSign 0 s negate us vs) := by
+  obtain ⟨hrb, hra⟩ := hr
+  obtain ⟨hub, hua⟩ := hu
+  obtain ⟨hvb, hva⟩ := hv
+  unfold addSameSign
+  simp only [Nat.add_zero]
+  generalize hP : s.r.prec = P at hra
+  generalize (s.obj us).size.natAbs = usize at hua
+  generalize (s.obj vs).size.natAbs = vsize at hva
+  generalize hed : (s.obj us).exp - (s.obj vs).exp = ediff
+  have hed0 : 0 ≤ ediff := by omega
+  have I : TInv s (s.tmpAlloc P) P := ⟨hs, rfl, rfl, rfl, rfl, by simp [BlkWF, St.tmpAlloc, Blk.new]⟩
+  generalize huo : (if usize > P then usize - P else 0) = uoff
+  generalize hus : (if usize > P then P else usize) = usz
+  have hu1 : uoff + usz ≤ (s.obj us).blk.alloc := by subst huo hus; split <;> omega
+  have hu2 : usz ≤ P := by subst hus; split <;> omega
+  by_cases c : ediff ≥ (P : Int)
+  · rw [if_pos c]
+    apply Fr.setSE
+    by_cases c2 : us = .r ∧ uoff = 0
+    · rw [if_pos c2]; exact ⟨hs, rfl, rfl, rfl, rfl, hrb⟩
+    · rw [if_neg c2]
+      have C := copyToR_spec (s.tmpAlloc P) us uoff usz hs hrb
+        (by rw [I.obj]; exact hub) (by rw [I.obj]; exact hu1) (by show _ ≤ s.r.blk.alloc; omega)
+      exact ⟨C.1, C.2.1, C.2.2.1, C.2.2.2.1, C.2.2.2.2.2.2.1, C.2.2.2.2.2.2.2.1⟩
+  · rw [if_neg c]
+    apply Fr.setSE
+    unfold addOverlap
+    have c' : ediff < (P : Int) := by omega
+    generalize hvo : (if decide ((vsize : Int) + ediff > (P : Int)) = true then ((vsize : Int) + ediff - (P : Int)).toNat else 0) = voff
+    generalize hvs : (if decide ((vsize : Int) + ediff > (P : Int)) = true then (P : Int) - ediff else (vsize : Int)) = vsz
+    have hv1 : voff + vsz.toNat ≤ (s.obj vs).blk.alloc := by
+      subst hvo hvs; by_cases c3 : (vsize : Int) + ediff > (P : Int) <;> simp only [c3, decide_true, decide_false, Bool.false_eq_true, ↓reduceIte] <;> omega
+    have hv2 : vsz.toNat + ediff.toNat ≤ P := by
+      subst hvs; by_cases c3 : (vsize : Int) + ediff > (P : Int) <;> simp only [c3, decide_true, decide_false, Bool.false_eq_true, ↓reduceIte] <;> omega
+    have A := addAlign_safe I us vs uoff usz voff vsz.toNat ediff.toNat hub hvb hu1 hv1 hv2 hu2
+    have S := addStore_safe A.1 (addAlign (s.tmpAlloc P) us uoff usz vs voff vsz.toNat ediff.toNat).2.1
+      (addAlign (s.tmpAlloc P) us uoff usz vs voff vsz.toNat ediff.toNat).2.2 A.2 hrb (by omega)
+    exact S.1
+
+
+theorem mpf_set_frame (s : St) (x : Src) (hs : s.ok = true) (hr : DestWF s.r) (hx : OpndWF (s.obj x)) :
+    (mpf_set 0 s x).ok = true ∧ (mpf_set 0 s x).u = s.u ∧ (mpf_set 0 s x).v = s.v ∧
+    (mpf_set 0 s x).r.prec = s.r.prec ∧ (mpf_set 0 s x).r.blk.alloc = s.r.blk.alloc ∧ BlkWF (mpf_set 0 s x).r.blk := by
+  obtain ⟨hrb, hra⟩ := hr
+  obtain ⟨hxb, hxa⟩ := hx
+  unfold mpf_set
+  simp only [Nat.add_zero]
+  generalize (s.obj x).size.natAbs = asize at hxa
+  generalize hp1 : s.r.prec + 1 = p1 at hra
+  generalize hoff : (if asize > p1 then asize - p1 else 0) = off
+  generalize hn : (if asize > p1 then p1 else asize) = n
+  have hb1 : off + n ≤ (s.obj x).blk.alloc := by subst hoff hn; split <;> omega
+  have hb2 : n ≤ s.r.blk.alloc := by subst hn; split <;> omega
+  have C := copyToR_spec (s.setSE (if (s.obj x).size ≥ 0 then (n : Int) else -(n : Int)) (s.obj x).exp) x off n hs hrb
+    (by rw [obj_setSE_blk]; exact hxb) (by rw [obj_setSE_blk]; exact hb1) hb2
+  exact ⟨C.1, C.2.1, C.2.2.1, C.2.2.2.1, C.2.2.2.2.2.2.1, C.2.2.2.2.2.2.2.1⟩
+
+theorem Fr.of_set (s : St) (x : Src) (hs : s.ok = true) (hr : DestWF s.r) (hx : OpndWF (s.obj x)) : Fr s (mpf_set 0 s x) := by
+  have h := mpf_set_frame s x hs hr hx
+  exact ⟨h.1, h.2.1, h.2.2.1, h.2.2.2.1, h.2.2.2.2.1, h.2.2.2.2.2⟩
+
+theorem mpf_add_frame (s : St) (us vs : Src) (hs : s.ok = true) (hr : DestWF s.r)
+    (hu : OpndWF (s.obj us)) (hv : OpndWF (s.obj vs)) (s' : St) (h : mpf_add 0 s us vs = some s') : Fr s s' := by
+  unfold mpf_add at h
+  simp only at h
+  split at h
+  · cases h
+    split
+    · exact Fr.of_set s vs hs hr hv
+    · exact ⟨hs, rfl, rfl, rfl, rfl, hr.1⟩
+  · split at h
+    · cases h
+      split
+      · exact Fr.of_set s us hs hr hu
+      · exact ⟨hs, rfl, rfl, rfl, rfl, hr.1⟩
+    · split at h
+      · cases h
+      · cases h
+        by_cases sw : (s.obj us).exp < (s.obj vs).exp
+        · simp only [sw, decide_true, if_true]
+          exact addSameSign_safe s _ vs us hs hr hv hu (by omega)
+        · simp only [sw, decide_false, Bool.false_eq_true, if_false]
+          exact addSameSign_safe s _ us vs hs hr hu hv (by omega)
+
 end Mpir.AllocSafe7
